@@ -180,6 +180,9 @@ def conclude(prop, ctx, res, level="model_checking", rule="", clause_prefix=None
             except Exception:
                 pass
     cov["note_samples"] = note_samples
+    pj = sys.modules.get("project")
+    if pj is not None and pj.DEGRADED["mux_order_from_save"]:
+        cov["projection_degraded"] = dict(pj.DEGRADED)
     ds = sys.modules.get("drv_solve")
     if ds is not None:      # generated parameter sets a constructor refused (dropped and drawn again; never a verdict)
         cov["generator_rejects"] = len(ds.GENERATOR_REJECTS)
